@@ -26,7 +26,7 @@ def _expected_first(n, heur, k):
         for j in range(k):
             out.append(tuple(1 - ((j >> (n - 1 - i)) & 1) for i in range(n)))
     else:
-        out.append(tuple(1 for _ in range(n)))  # mid value of [0,2]; only the first solution is pinned down
+        out.append(tuple(([0] if heur == "mid_odd" else [1]) + [1] * (n - 1)))  # only the first solution is pinned down
     return out
 
 
@@ -34,17 +34,23 @@ def stack_case(height, depth, heur, calg, k=6):
     """Chain of free variables needing `depth` nested choice points to reach the first solution."""
     from framework import nucsmap as M
 
-    two_level = heur == "mid"
-    n = depth // 2 if two_level else depth
-    if n < 1:
+    two_level = heur in ("mid", "mid_odd")
+    odd = heur == "mid_odd"  # one single push first: the two-level pushes then start from an odd level
+    if odd:
+        n = (depth - 1) // 2 + 1
+    else:
+        n = depth // 2 if two_level else depth
+    if n < 1 or (odd and n < 2):
         return None
     dom = [0, 2] if two_level else [0, 1]
     model = {"doms": [list(dom) for _ in range(n)], "idx": list(range(n)), "off": [0] * n,
              "props": [[[0], "dummy", []]]}
-    real_depth = 2 * n if two_level else n
+    if odd:
+        model["doms"][0] = [0, 1]
+    real_depth = (1 + 2 * (n - 1)) if odd else (2 * n if two_level else n)
     rec = {"height": height, "depth": real_depth, "heuristic": heur, "calg": calg, "n": n}
     try:
-        s = M.build_solver(model, {"calg": calg, "vh": "first", "dh": heur, "height": height})
+        s = M.build_solver(model, {"calg": calg, "vh": "first", "dh": "mid" if two_level else heur, "height": height})
     except Exception as e:
         rec["outcome"] = "error"
         rec["detail"] = "refused at construction: %s: %s" % (type(e).__name__, str(e)[:120])
@@ -84,6 +90,19 @@ def stack_case(height, depth, heur, calg, k=6):
                                           ("not_entailed_propagators_stack", hit_f)) if h]
     rec["max_top_seen"] = max(tops) if tops else None
     exp = _expected_first(n, heur, min(k, 2 ** min(n, 20)))
+    # level 0 only ever holds the alternative of the first decision (variable 0): every other domain of that level must
+    # still have its initial value, whatever happened above - a wrapped stack pointer writes here
+    lvl0 = s.shr_domains_stack[0]
+    init = np.array(model["doms"], dtype=np.int32)
+    # (only the first k solutions are enumerated, all of them inside the first sub-tree of the variables 0 .. n-4: the
+    # search never comes back to level 0 to decide one of those, so their level-0 domains cannot legitimately change)
+    level0_corrupt = n >= 6 and not np.array_equal(lvl0[1:n - 3], init[1:n - 3])
+    if level0_corrupt and not guard_hit:
+        rec["outcome"] = "wrap"
+        rec["detail"] = "level 0 of the domain stack was overwritten (domains of untouched variables changed from %r to " \
+                        "%r)%s" % (init[1:4].tolist(), lvl0[1:4].tolist(),
+                                   "" if not rec["raised"] else " before " + rec["raised"])
+        return rec
     if guard_hit:
         rec["outcome"] = "canary"
         rec["detail"] = "%d guard row(s) beyond the allocated rows %r of %r were written" % (
@@ -93,8 +112,8 @@ def stack_case(height, depth, heur, calg, k=6):
         rec["detail"] = rec["raised"]
     else:
         ok = len(set(sols)) == len(sols) and all(all(dom[0] <= v <= dom[1] for v in t) for t in sols)
-        if heur == "mid":
-            ok = ok and bool(sols) and sols[0] == exp[0] and len(sols) == min(k, 3 ** n)
+        if two_level:
+            ok = ok and bool(sols) and sols[0] == exp[0] and len(sols) == min(k, (2 if odd else 3) * 3 ** (n - 1))
         else:
             ok = ok and sols == exp
         if tops and real_depth <= 255 and tops[0] != real_depth:
@@ -127,10 +146,10 @@ def run_stack(task):
            "records": []}
     heights = task["heights"]
     for h in heights:
-        for heur in ("min", "max", "split_low", "mid"):
+        for heur in ("min", "max", "split_low", "mid", "mid_odd"):
             for calg in ("bc", "shaving"):
                 for d in range(max(1, h - 3), h + 4):
-                    if heur == "mid" and d % 2:
+                    if (heur == "mid" and d % 2) or (heur == "mid_odd" and d % 2 == 0):
                         continue
                     if calg == "shaving" and h > 300:
                         continue
